@@ -330,9 +330,18 @@ func (x *Exec) typeSwitchStmt(s *ast.TypeSwitchStmt, st *State) *Flow {
 		subject = a.X.(*ast.TypeAssertExpr).X
 	}
 	e0 := x.ev(st)
-	iv, ok := e0.ev(subject).(VIface)
-	if !ok {
-		unsupp(s.Pos(), x.fx.prog.fset, "type switch on a non-interface model")
+	subjV := e0.ev(subject)
+	var rv VRef
+	isRef := false
+	if r, ok := subjV.(VRef); ok && strings.HasPrefix(r.Elem, "iface:") {
+		// a modelled interface value (parse.Node): cases test the uninterpreted dynamic type
+		rv, isRef = r, true
+		x.fx.specUsed["dyntype"] = true
+		x.fx.trusted["interface values of text/template/parse.Node never hold a typed nil pointer; their dynamic type is a function of the reference (assumed)"] = true
+	}
+	iv, ok := subjV.(VIface)
+	if !ok && !isRef {
+		unsupp(s.Pos(), x.fx.prog.fset, fmt.Sprintf("type switch on a non-interface model (%T %v)", subjV, subjV))
 	}
 	rem := st.clone()
 	var falls []*State
@@ -348,6 +357,14 @@ func (x *Exec) typeSwitchStmt(s *ast.TypeSwitchStmt, st *State) *Flow {
 		for _, te := range cc.List {
 			t := x.info.TypeOf(te)
 			single = t
+			if isRef {
+				en, ok := elemName(t)
+				if !ok {
+					unsupp(te.Pos(), x.fx.prog.fset, "type switch case %s on a parse.Node", t)
+				}
+				conds = append(conds, sAnd(sNot(sEq(rv.T, "0")), sEq("(dyntype "+rv.T+")", fmt.Sprintf("%d", typeID(en)))))
+				continue
+			}
 			if name, ok := isSafehtmlNamed(t); ok {
 				conds = append(conds, sEq(iv.Tag, fmt.Sprintf("%d", safeTypeTags[name])))
 			} else if types.Identical(t, types.Typ[types.String]) {
@@ -359,7 +376,14 @@ func (x *Exec) typeSwitchStmt(s *ast.TypeSwitchStmt, st *State) *Flow {
 		c := x.fx.name(sortBool, "tcase", sOr(conds...))
 		stC := st.clone()
 		stC.pc = x.fx.name(sortBool, "pc", sAnd(rem.pc, c))
-		if obj := x.info.Implicits[cc]; obj != nil {
+		if obj := x.info.Implicits[cc]; obj != nil && isRef {
+			if len(cc.List) == 1 {
+				en, _ := elemName(single)
+				stC.env[obj] = VRef{rv.T, en}
+			} else {
+				stC.env[obj] = rv
+			}
+		} else if obj != nil {
 			if len(cc.List) == 1 {
 				if name, ok := isSafehtmlNamed(single); ok {
 					stC.env[obj] = VStruct{TName: name, Names: []string{"str"}, F: map[string]Val{"str": iv.S}}
@@ -381,7 +405,11 @@ func (x *Exec) typeSwitchStmt(s *ast.TypeSwitchStmt, st *State) *Flow {
 	stD.pc = rem.pc
 	if deflt != nil {
 		if obj := x.info.Implicits[deflt]; obj != nil {
-			stD.env[obj] = iv
+			if isRef {
+				stD.env[obj] = rv
+			} else {
+				stD.env[obj] = iv
+			}
 		}
 		f := x.block(deflt.Body, stD)
 		out.cont = append(out.cont, f.cont...)
